@@ -3,11 +3,12 @@ from contracts import channel, specs
 
 ID = "C25"
 C = "paramiko.channel.Channel."
-TARGETS = [C + "sendall", C + "sendall_stderr"]
+TARGETS = [C + "sendall", C + "sendall_stderr", C + "_wait_for_send_window"]
 REPLAY = {"*": "c25.replay_sendall"}
 
 
 def setup(E):
+    channel.declare_c19(E)          # _wait_for_send_window with its monitor contract incl. the exit_when progress obligation
     channel.declare_c25(E)
 
 CLAIMED = True
@@ -15,7 +16,8 @@ LEVEL_TEXT = ("Proof with loop invariant and variant on the real sendall / senda
               "send() reported as handed over) satisfies delivered ++ remaining == original at every iteration, the remaining "
               "length strictly decreases, and a normal return implies delivered == everything; the only other outcomes are "
               "the documented exceptions. send() is used by contract (0 <= sent <= len, may be 0 when closed/EOF).")
-LEVEL_NOTE = ("send()/send_stderr() are assumed here to satisfy their contract (their window arithmetic is verified under C19 "
+LEVEL_NOTE = ("The wait loop inside _wait_for_send_window carries a progress obligation (an iteration that starts with the "
+              "channel closed or EOF sent must leave the loop), so a parked sender is released by close(). send()/send_stderr() are assumed here to satisfy their contract (their window arithmetic is verified under C19 "
               "through _send/_wait_for_send_window); timeouts are raised by the callee. Thread interleavings only enter through "
               "send()'s contract.")
 TECHNIQUE = "deductive: loop invariant + variant over ghost delivered-bytes, z3"
